@@ -36,6 +36,10 @@ type concInst struct {
 	done    []bool
 }
 
+type concObj struct{ id int }
+
+func (o concObj) MarshalZerologObject(e *zerolog.Event) { e.Int("id", o.id) }
+
 type lineRec struct{ lines []string }
 
 func (l *lineRec) Write(p []byte) (int, error) {
@@ -68,7 +72,17 @@ func (c *concInst) Body() {
 			mcrt.Point("step")
 			child.UpdateContext(func(cx zerolog.Context) zerolog.Context { return cx.Int("u", t) })
 			mcrt.Point("step")
-			child.Warn().Str("who", fmt.Sprintf("child%d", t)).Msg("m")
+			if c.variant == "fields" {
+				// Fields(map) calls of siblings overlap: their key names and numbers differ, and the marshaler value (sorted
+				// first) puts scheduling points inside the loop over the keys
+				m := map[string]interface{}{"b": concObj{t}, fmt.Sprintf("k%d", t): t}
+				for k := 1; k <= t; k++ {
+					m[fmt.Sprintf("a%d", k)] = k
+				}
+				child.Warn().Str("who", fmt.Sprintf("child%d", t)).Fields(m).Msg("m")
+			} else {
+				child.Warn().Str("who", fmt.Sprintf("child%d", t)).Msg("m")
+			}
 			mcrt.Point("step")
 			out := parent.Output(c.w2)
 			out.Error().Str("who", fmt.Sprintf("out%d", t)).Msg("m")
@@ -121,7 +135,14 @@ func (c *concInst) Check(res *mcrt.Result) []explore.Violation {
 	dest := map[string]int{}
 	for t := 0; t < c.threads; t++ {
 		want[fmt.Sprintf("hooked%d", t)] = fmt.Sprintf(`{"level":"info","p":"parent","c":%d,"who":"hooked%d"%s,"hook":%d,"message":"m"}`+"\n", t, t, ph, t)
-		want[fmt.Sprintf("child%d", t)] = fmt.Sprintf(`{"level":"warn","p":"parent","c":%d,"u":%d,"who":"child%d"%s,"message":"m"}`+"\n", t, t, t, ph)
+		fl := ""
+		if c.variant == "fields" {
+			for k := 1; k <= t; k++ {
+				fl += fmt.Sprintf(`,"a%d":%d`, k, k)
+			}
+			fl += fmt.Sprintf(`,"b":{"id":%d},"k%d":%d`, t, t, t)
+		}
+		want[fmt.Sprintf("child%d", t)] = fmt.Sprintf(`{"level":"warn","p":"parent","c":%d,"u":%d,"who":"child%d"%s%s,"message":"m"}`+"\n", t, t, t, fl, ph)
 		want[fmt.Sprintf("out%d", t)] = fmt.Sprintf(`{"level":"error","p":"parent","who":"out%d"%s,"message":"m"}`+"\n", t, ph)
 		dest[fmt.Sprintf("out%d", t)] = 1
 		want[fmt.Sprintf("parent%d", t)] = fmt.Sprintf(`{"level":"info","p":"parent","who":"parent%d"%s,"message":"m"}`+"\n", t, ph)
@@ -221,12 +242,15 @@ func concPart(r *seq.Run, tier string) {
 		{Scenario: "T2/plain", Bound: 3, Cache: true, Single: true, MaxSteps: 20000},
 		{Scenario: "T2/hooked", Bound: 3, Cache: true, Single: true, MaxSteps: 20000},
 		{Scenario: "T2/dropping", Bound: 3, Cache: true, Single: true, MaxSteps: 20000},
+		{Scenario: "T2/fields", Bound: 3, Cache: true, Single: true, MaxSteps: 20000},
 		{Scenario: "T3/plain", Bound: 2, Cache: true, Single: true, MaxSteps: 20000},
 	}
 	if tier == "thorough" {
 		plans = []drv.Plan{
 			{Scenario: "T2/plain", Bound: -1, Cache: true, Single: true, MaxSteps: 20000},
 			{Scenario: "T2/hooked", Bound: 6, Cache: true, Single: true, MaxSteps: 20000},
+			{Scenario: "T2/dropping", Bound: 4, Cache: true, Single: true, MaxSteps: 20000},
+			{Scenario: "T2/fields", Bound: 4, Cache: true, Single: true, MaxSteps: 20000},
 			{Scenario: "T3/plain", Bound: 4, Cache: true, Single: true, MaxSteps: 20000},
 			{Scenario: "T3/hooked", Bound: 3, Cache: true, Single: true, MaxSteps: 20000},
 		}
